@@ -97,7 +97,8 @@ func createRedirectSignature(
 		return "", "", err
 	}
 
-	return url.QueryEscape(base64.StdEncoding.EncodeToString(sig)), url.QueryEscape(base64.StdEncoding.EncodeToString([]byte(signatureAlgorithm))), nil
+	// the values are percent-encoded once, by BuildRedirectQuery, when the redirect URL is built
+	return base64.StdEncoding.EncodeToString(sig), signatureAlgorithm, nil
 }
 
 func BuildRedirectQuery(
